@@ -6,6 +6,10 @@ commits = subprocess.run(["git","-C","/repo","log","--format=%H %s"],capture_out
 hook_commits = [c.split()[0] for c in commits if c.split(" ",1)[1].startswith("verif:")]
 
 CLAIMED = {
+ "C02": dict(
+   text="The clause of the property that the outcome depends only on which formats are selected, not on how the selection is spelled, is decided for the format-selection flags: each of the 91 keystroke-saver flags of the documented matrix (docs/src/reference-main-flag-list.md: row = input format, column = output format) and each of the 34 flags documented as 'Use X format for input / output / input and output data' has, as a machine-checked postcondition of its parser closure in cli.FLAG_TABLE (found through the entry's name), that it selects exactly those formats (for JSON output also list-wrapping on; for JSON Lines output the jsonl writer or JSON with wrapping and multi-line off) and consumes one argument. The expectations are generated from the documentation, not from the code.",
+   note="Not decided: A->B->A and A->B = A->C->B over record streams; flatten/unflatten as inverse pair (needs recursive specs over nested values); -i/-o/--io two-argument forms, named separators and aliases, .mlrrc line handling; the other ~130 flags.",
+   ref="DESIGN.md §3.C02"),
  "C01": dict(
    text="Field-level codecs and the CSV record writer are proved against byte-level specifications, with the output buffer modelled as the ghost sequence of all bytes written: TSV encode/decode (length bounds, no raw tab/newline/CR ever emitted, identity on fields without special bytes, exact text of each single escape), the CSV quoting decision (field needs quotes iff it contains the delimiter, a quote, CR or LF, or is the Postgres terminator; ASCII delimiters), the CSV record writer (append-only; exact text of records of 0, 1 and 2 fields unquoted, of one field under quote-all, of a one-byte field holding each special byte, with LF and CRLF line endings), DKVPX field quoting, the JSON string encoder (never a raw control character for any input, identity between quotes on plain text, the named escapes), and the three line readers (every byte consumed is accounted for: line + one terminator, or an unterminated last line).",
    note="Not decided: the readers' record state machines (the fork of encoding/csv, DKVPX readRecord, XTAB, PPRINT, markdown, YAML), header/schema state of the writers, implicit header/headerless/BOM options, the independent RFC-4180/IANA-TSV/RFC-8259 reader clause, records of more than two CSV fields (needs a recursive encoding function). Assumed: models of bytes.Buffer/strings.Builder/bufio.Writer/bufio.Reader.ReadString/strings.IndexAny/fmt.Sprintf (format shape only); colours off (colorizer.NoColor).",
@@ -60,7 +64,6 @@ CLAIMED = {
    ref="DESIGN.md §3.C07"),
 }
 NA = {
- "C02": "A->B->A over record streams and the equivalence of 260 keystroke-saver closures with 'their documented expansion' are not statements over one call or one data structure: the closures are verified for memory safety (C18), but a postcondition 'the closure for --c2j selects csv in, json out' could only be transcribed from the table it checks (no independent expansion table exists in the code), and the flatten/unflatten inverse law needs recursive specs over nested value trees, which the solvers do not discharge. See DESIGN.md §3.C02.",
  "C04": "Batch-size and scheduling independence, termination and streaming are properties of goroutine compositions; the VC generator havocs the heap at go, select and channel receive, so no contract in reach can state them. Two mechanisms named by the anchors are proved under other ids (hash-index transparency of findEntry under C12, send-once of the downstream-done flag in head under C11). See DESIGN.md §3.C04.",
  "C13": "Pairing completeness is relational over two multisets of records; the bucket keeper and the half-streaming step are long methods over the generic lib.OrderedMap and channels, and no contract written carries a pairing statement. Only the grouping-key escaping (shared with C10) is proved. See DESIGN.md §3.C13.",
  "C15": "Character-versus-byte indexing rests on unicode/utf8, the regex functions on regexp, formatting on fmt, hashing on crypto/*: library code the engine only sees as uninterpreted functions, so a contract would be vacuous or restate the call. The backslash/hex literal scanners are proved (counted under C18) but are too small a part of the property to claim it. See DESIGN.md §3.C15.",
